@@ -17,46 +17,32 @@ Inductive pclass := PLimit | PSyntax.
 Record perror := { pe_class : pclass; pe_index : N }.
 
 Record pstate := {
-  st_items : list item;          (* what self.lexer will still yield; [] = the iterator returns None *)
-  st_cur : option tok;           (* current_token *)
+  st_items : list item   (* what self.lexer will still yield; [] = the iterator returns None *);
+  st_cur : option tok   (* current_token *);
   st_builder : builder;
-  st_pending : list pend;        (* in source order *)
-  st_errors : list perror;       (* REVERSED (most recent first) *)
-  st_rec : tracker;              (* recursion_limit *)
-  st_accept : bool;              (* accept_errors *)
-  st_pulled : N;                 (* number of items pulled from self.lexer = lexer.limit_tracker.high *)
-  st_dbg : bool                  (* debug_assertions on? (constant during a run) *)
+  st_pending : list pend   (* in source order *);
+  st_errors : list perror   (* REVERSED (most recent first) *);
+  st_rec : tracker   (* recursion_limit *);
+  st_accept : bool   (* accept_errors *);
+  st_pulled : N   (* number of items pulled from self.lexer = lexer.limit_tracker.high *);
+  st_dbg : bool   (* debug_assertions on? (constant during a run) *);
+  st_dropped : list tok   (* GHOST (no behaviour depends on it): tokens popped and never given to the builder, REVERSED *)
 }.
 
-Definition set_items v s := {| st_items := v; st_cur := st_cur s; st_builder := st_builder s;
-  st_pending := st_pending s; st_errors := st_errors s; st_rec := st_rec s; st_accept := st_accept s;
-  st_pulled := st_pulled s; st_dbg := st_dbg s |}.
-Definition set_cur v s := {| st_items := st_items s; st_cur := v; st_builder := st_builder s;
-  st_pending := st_pending s; st_errors := st_errors s; st_rec := st_rec s; st_accept := st_accept s;
-  st_pulled := st_pulled s; st_dbg := st_dbg s |}.
-Definition set_builder v s := {| st_items := st_items s; st_cur := st_cur s; st_builder := v;
-  st_pending := st_pending s; st_errors := st_errors s; st_rec := st_rec s; st_accept := st_accept s;
-  st_pulled := st_pulled s; st_dbg := st_dbg s |}.
-Definition set_pending v s := {| st_items := st_items s; st_cur := st_cur s; st_builder := st_builder s;
-  st_pending := v; st_errors := st_errors s; st_rec := st_rec s; st_accept := st_accept s;
-  st_pulled := st_pulled s; st_dbg := st_dbg s |}.
-Definition set_errors v s := {| st_items := st_items s; st_cur := st_cur s; st_builder := st_builder s;
-  st_pending := st_pending s; st_errors := v; st_rec := st_rec s; st_accept := st_accept s;
-  st_pulled := st_pulled s; st_dbg := st_dbg s |}.
-Definition set_rec v s := {| st_items := st_items s; st_cur := st_cur s; st_builder := st_builder s;
-  st_pending := st_pending s; st_errors := st_errors s; st_rec := v; st_accept := st_accept s;
-  st_pulled := st_pulled s; st_dbg := st_dbg s |}.
-Definition set_accept v s := {| st_items := st_items s; st_cur := st_cur s; st_builder := st_builder s;
-  st_pending := st_pending s; st_errors := st_errors s; st_rec := st_rec s; st_accept := v;
-  st_pulled := st_pulled s; st_dbg := st_dbg s |}.
-Definition set_pulled v s := {| st_items := st_items s; st_cur := st_cur s; st_builder := st_builder s;
-  st_pending := st_pending s; st_errors := st_errors s; st_rec := st_rec s; st_accept := st_accept s;
-  st_pulled := v; st_dbg := st_dbg s |}.
+Definition set_items v s := {| st_items := v; st_cur := st_cur s; st_builder := st_builder s; st_pending := st_pending s; st_errors := st_errors s; st_rec := st_rec s; st_accept := st_accept s; st_pulled := st_pulled s; st_dbg := st_dbg s; st_dropped := st_dropped s |}.
+Definition set_cur v s := {| st_items := st_items s; st_cur := v; st_builder := st_builder s; st_pending := st_pending s; st_errors := st_errors s; st_rec := st_rec s; st_accept := st_accept s; st_pulled := st_pulled s; st_dbg := st_dbg s; st_dropped := st_dropped s |}.
+Definition set_builder v s := {| st_items := st_items s; st_cur := st_cur s; st_builder := v; st_pending := st_pending s; st_errors := st_errors s; st_rec := st_rec s; st_accept := st_accept s; st_pulled := st_pulled s; st_dbg := st_dbg s; st_dropped := st_dropped s |}.
+Definition set_pending v s := {| st_items := st_items s; st_cur := st_cur s; st_builder := st_builder s; st_pending := v; st_errors := st_errors s; st_rec := st_rec s; st_accept := st_accept s; st_pulled := st_pulled s; st_dbg := st_dbg s; st_dropped := st_dropped s |}.
+Definition set_errors v s := {| st_items := st_items s; st_cur := st_cur s; st_builder := st_builder s; st_pending := st_pending s; st_errors := v; st_rec := st_rec s; st_accept := st_accept s; st_pulled := st_pulled s; st_dbg := st_dbg s; st_dropped := st_dropped s |}.
+Definition set_rec v s := {| st_items := st_items s; st_cur := st_cur s; st_builder := st_builder s; st_pending := st_pending s; st_errors := st_errors s; st_rec := v; st_accept := st_accept s; st_pulled := st_pulled s; st_dbg := st_dbg s; st_dropped := st_dropped s |}.
+Definition set_accept v s := {| st_items := st_items s; st_cur := st_cur s; st_builder := st_builder s; st_pending := st_pending s; st_errors := st_errors s; st_rec := st_rec s; st_accept := v; st_pulled := st_pulled s; st_dbg := st_dbg s; st_dropped := st_dropped s |}.
+Definition set_pulled v s := {| st_items := st_items s; st_cur := st_cur s; st_builder := st_builder s; st_pending := st_pending s; st_errors := st_errors s; st_rec := st_rec s; st_accept := st_accept s; st_pulled := v; st_dbg := st_dbg s; st_dropped := st_dropped s |}.
+Definition set_dropped v s := {| st_items := st_items s; st_cur := st_cur s; st_builder := st_builder s; st_pending := st_pending s; st_errors := st_errors s; st_rec := st_rec s; st_accept := st_accept s; st_pulled := st_pulled s; st_dbg := st_dbg s; st_dropped := v |}.
 
 (* Parser::new(input).recursion_limit(rl) [.token_limit(tl): already in `items`] *)
 Definition init_state (dbg : bool) (rl : N) (items : list item) : pstate :=
   {| st_items := items; st_cur := None; st_builder := builder_new; st_pending := []; st_errors := [];
-     st_rec := tracker_new rl; st_accept := true; st_pulled := 0; st_dbg := dbg |}.
+     st_rec := tracker_new rl; st_accept := true; st_pulled := 0; st_dbg := dbg; st_dropped := [] |}.
 
 (* ---- the monad ---- *)
 Definition M (A : Type) := pstate -> outcome (A * pstate).
@@ -144,14 +130,14 @@ Definition peek_data : M (option str) := o <- peek_token ;; ret (option_map td o
 Definition at_ (k : tkind) : M bool :=
   o <- peek ;; ret (match o with Some t => tkind_eqb t k | None => false end).
 
-(* peek_n_inner(n): current_token, then a CLONE of the lexer; errors dropped; Whitespace and Comment
-   (not Comma) filtered out; .nth(n - 1).  Pure. *)
+(* peek_n_inner(n): current_token, then a CLONE of the lexer; errors dropped; Whitespace, Comment and
+   Comma filtered out; .nth(n - 1).  Pure. *)
 Fixpoint nth_significant (n : nat) (l : list item) : option tok :=
   match l with
   | [] => None
   | Err _ _ _ :: r => nth_significant n r
   | Tok k d i :: r =>
-      if is_trivia_kind k then nth_significant n r
+      if is_ignored_kind k then nth_significant n r
       else match n with
            | O => Some {| tk := k; td := d; ti := i |}
            | S m => nth_significant m r
@@ -327,6 +313,14 @@ Definition rec_decrement : M unit :=
            | OutOfFuel => OutOfFuel
            end.
 
+(* The five recursion-guarded sites all have the shape
+     if p.recursion_limit.check_and_increment() { <on_reached>; return .. }
+     let x = <body>; p.recursion_limit.decrement(); <k x> *)
+Definition rec_guard {A B} (on_reached : M B) (body : M A) (k : A -> M B) : M B :=
+  reached <- rec_check_and_increment ;;
+  if reached then on_reached
+  else x <- body ;; rec_decrement ;; k x.
+
 (* debug_assert!(before != self.current_token) *)
 Definition debug_assert_advanced (before : option tok) : M unit :=
   fun s => if st_dbg s && otok_eqb before (st_cur s) then Panic DebugAssert else Ok (tt, s).
@@ -372,6 +366,24 @@ Fixpoint peek_while_kind_acc {S} (fuel : nat) (expect_ : tkind) (run : S -> M S)
 
 Definition peek_while_kind (fuel : nat) (expect_ : tkind) (run : M unit) : M unit :=
   peek_while_kind_acc fuel expect_ (fun _ => run) tt.
+
+(* trailing_tokens_are_errors: skip_ignored(); while !matches!(peek(), None | Some(Eof)) { err_and_pop(msg) };
+   push_ignored() *)
+Fixpoint trailing_loop (fuel : nat) : M unit :=
+  match fuel with
+  | O => out_of_fuel
+  | Datatypes.S f =>
+      o <- peek ;;
+      match o with
+      | None | Some Eof => ret tt
+      | Some _ => err_and_pop ;; trailing_loop f
+      end
+  end.
+Definition trailing_tokens_are_errors (fuel : nat) : M unit :=
+  skip_ignored ;; trailing_loop fuel ;; push_ignored.
+
+(* GHOST: record that token t was popped and will never reach the builder *)
+Definition ghost_dropped (t : tok) : M unit := modify (fun s => set_dropped (t :: st_dropped s) s).
 
 (* parse_separated_list *)
 Definition parse_separated_list (fuel : nat) (separator : tkind) (separator_syntax : skind) (run : M unit)
